@@ -23,7 +23,7 @@ static GLOBAL: alloc::Counting = alloc::Counting;
 
 fn usage() -> ! {
     eprintln!(
-        "usage: sim check <C05|C16|C18> [--tier quick|thorough] [--seed N] [--threads N] [--scale X] [--config F0..F4]\n       sim replay <file>\n       sim selftest <determinism|stub-fidelity>"
+        "usage: sim check <C05|C16|C18> [--tier quick|thorough] [--seed N] [--threads N] [--scale X] [--config F0..F4]\n       sim replay <file>\n       sim selftest <determinism|stub-fidelity|reach>"
     );
     std::process::exit(2)
 }
@@ -119,6 +119,7 @@ fn main() {
         Some("selftest") => match pos.get(1).map(|s| s.as_str()) {
             Some("determinism") => selftest::determinism(pos.get(2).and_then(|s| s.parse().ok()).unwrap_or(24)),
             Some("stub-fidelity") => selftest::stub_fidelity(),
+            Some("reach") => selftest::reach(),
             _ => usage(),
         },
         Some("replay") => {
